@@ -122,13 +122,24 @@ func (k *Keyring) RemoveKey(key []byte) error {
 	k.l.Lock()
 	defer k.l.Unlock()
 
+	// Nothing to remove from an empty keyring.
+	if len(k.keys) == 0 {
+		return nil
+	}
+
 	if bytes.Equal(key, k.keys[0]) {
 		return fmt.Errorf("removing the primary key is not allowed")
 	}
 	for i, installedKey := range k.keys {
 		if bytes.Equal(key, installedKey) {
-			keys := append(k.keys[:i], k.keys[i+1:]...)
+			// Build the shortened list in a fresh slice: appending onto
+			// k.keys[:i] would rewrite the backing array that slices
+			// returned earlier by GetKeys() still point to.
+			keys := make([][]byte, 0, len(k.keys)-1)
+			keys = append(keys, k.keys[:i]...)
+			keys = append(keys, k.keys[i+1:]...)
 			k.installKeysLocked(keys, k.keys[0])
+			break
 		}
 	}
 	return nil
